@@ -451,11 +451,12 @@ def run(tier, seed, replay=None):
 
     # developer switch (mutation experiments): skip the model-checking runs, keep tours + drivers
     nomc = bool(os.environ.get("VERIF_C20_NOMC"))
+    # the (short) graph dumps go first into the pool: the tours must not wait behind the model checking
+    graph_jobs = {name: pool.submit(_graph, name, module, consts)
+                  for name, (module, consts) in graph_configs(tier).items()}
     collect_mc = (lambda runner=None: None) if nomc else model_check(chk, tier, pool, seed)
     if nomc:
         chk.assumptions.append("VERIF_C20_NOMC set: TLC model checking skipped in this run")
-    graph_jobs = {name: pool.submit(_graph, name, module, consts)
-                  for name, (module, consts) in graph_configs(tier).items()}
 
     # ---- code -> spec drivers (python side runs while TLC is busy) -----------------------------
     t0 = time.time()
